@@ -107,6 +107,15 @@ func (stageComp) Corpus() [][]string {
 		// crash images of a complete reception + pipeline
 		{"base ?", "recover 0", "prepare a 3 0", "cut 2 recv a - - 3 b1.2.3 0 3 1.2.3 0", "observe", "recover 0", "settle 0", "observe"},
 		{"base ?", "recover 0", "prepare a 3 0", "recv a - - 3 b1.2.3 0 3 1.2.3 0", "process a 0", "cut 2 finh a 0", "observe", "recover 0", "settle 0", "observe", "status a 0 0"},
+		// the stray cleaner and a stale partial of a NEW version of a name whose earlier delivery is known only from the log
+		{"base ?", "oldlog w.nc - b164.109.153.172.239.246.250.111 8 -90002", "recover 0", "prepare w.nc 2 14", "recv w.nc - - 2 b90.244 0 1 90 15",
+			"chtime w.nc part -400000", "observe", "cleanstrays 16", "observe", "scan"},
+		// a failed new version of such a name polled with a fresh and then with an old reference time
+		{"base ?", "oldlog y/z - b89 1 -260001", "recover 0", "prepare y/z 5 12", "recv y/z - - 5 b246.209.114.226.173 0 5 246.209.114.226.173 13",
+			"corrupt y/z full 0 252", "settle 15", "status y/z 0 16", "status y/z -261001 18", "status y/z 0 19"},
+		// two files held in a chain and the cleaner: no cycle, nothing may be released
+		{"base ?", "recover 0", "prepare d/a 3 0", "recv d/a - a 3 b149.21.165 0 3 149.21.165 0", "prepare a 3 0", "recv a - b 3 b155.130.139 0 3 155.130.139 0",
+			"settle 0", "cleanwaiting", "settle 0", "observe", "status d/a 0 0", "status a 0 0"},
 		// crash right after the receive-log record, before the move: Recover must finish the delivery
 		{"base ?", "recover 0", "prepare a 3 0", "recv a - - 3 b1.2.3 0 3 1.2.3 0", "process a 0", "cut 1 finh a 0", "observe", "recover 0", "settle 0", "observe", "status a 0 0"},
 		{"base ?", "recover 0", "prepare a 3 0", "recv a - - 3 b1.2.3 0 3 1.2.3 0", "process a 0", "cut 3 finh a 0", "observe", "recover 0", "settle 0", "observe", "status a 0 0"},
